@@ -67,11 +67,19 @@ STRENGTHENED3 = {
     ("C17", "2"): "C17 now runs the population-based optimiser with a box that excludes the default start",
     ("C18", "1"): "C18 now has a plain-defaults case: template with an empty margin whose box overhangs the upper border of a target with non-fast extents",
 }
+STRENGTHENED4 = {
+    ("C02", "2"): "C02 split stream now has problems with an axis extent well below its fast FFT length and no Fourier padding",
+    ("C03", "1"): "C03 planted stream now plants the rotation that only the last job's remainder covers whenever the job count does not divide the rotation count",
+    ("C09", "2"): "C09 archive-style entries now come with two models (MODEL / ENDMDL, pdbx_PDB_model_num)",
+    ("C16", "1"): "C16 now injects KeyboardInterrupt / SystemExit in sequential searches (must not become a returned result, nothing left behind)",
+    ("C17", "2"): "not widened: the change is in Density.rigid_transform, whose exactness is C06's property - the C06 check reports it (the C17 check builds its moved templates itself)",
+    ("C18", "2"): "C18: a result file that cannot be reloaded from the check's directory is now a clause failure with its input (first pass: harness crash, no-failing-input-found)",
+}
 import sys
 ROUND = int(sys.argv[1]) if len(sys.argv) > 1 else 1
-ROOT = {1: "/tmp/seed", 2: "/tmp/seed2", 3: "/tmp/seed3"}[ROUND]
+ROOT = {1: "/tmp/seed", 2: "/tmp/seed2", 3: "/tmp/seed3", 4: "/tmp/seed4"}[ROUND]
 if ROUND >= 2:
-    STRENGTHENED = STRENGTHENED2 if ROUND == 2 else STRENGTHENED3
+    STRENGTHENED = {2: STRENGTHENED2, 3: STRENGTHENED3, 4: STRENGTHENED4}[ROUND]
     first = {}
     for d in sorted(glob.glob(ROOT + "/C*/out/[12]")):
         rf = os.path.join(d, "result_first.json")
